@@ -59,9 +59,12 @@ class _SocketHub:
         self, socket: thread_socket.ThreadSocket, timeout: Optional[float] = None
     ) -> None:
         """Connects a socket to another"""
+        # Register the callbacks before the socket becomes visible in _open_sockets:
+        # a peer that sees the socket as open may send at once, and the message must
+        # reach the callback instead of being stranded in the pending queue.
+        self._add_callbacks(socket)
         self._open_sockets.add(socket.key)
         self._remote_sockets.add(socket.key)
-        self._add_callbacks(socket)
 
         self._wait_for_remote(socket, timeout=timeout)
 
